@@ -426,6 +426,39 @@ class FnRewriter:
             if k > n:
                 raise ExtractError("lost anchor: map/collect #%d in %s" % (k, self.name))
 
+    def r13b_itermapcollect(self):
+        """`e.iter().map(f).collect[::<..>]()` -> `vx_iter_map_collect(&e, f)` (prelude fn with a verified body)"""
+        want = self.opts.get("itermapcollect", set())
+        if not want:
+            return
+        toks = self.toks
+        bo, bc = self.body_range()
+        n = 0
+        for i in range(bo + 1, bc - 6):
+            if toks[i].text == "." and toks[i + 1].text == "iter" and toks[i + 2].text == "(" and toks[i + 3].text == ")" \
+                    and toks[i + 4].text == "." and toks[i + 5].text == "map" and toks[i + 6].text == "(":
+                mo = i + 6
+                mcl = self.match[mo]
+                if not (toks[mcl + 1].text == "." and toks[mcl + 2].text == "collect"):
+                    continue
+                e = mcl + 3
+                if toks[e].text == "::":
+                    e = self.src._skip_angle(e + 1)
+                if toks[e].text != "(":
+                    continue
+                e = self.match[e]
+                n += 1
+                if n not in want:
+                    continue
+                s0 = self.operand_start(i - 1)
+                self.edit(toks[s0].start, toks[s0].start, "vx_iter_map_collect(&", "R13")
+                self.edit(toks[i].start, toks[mo].end, ", ", "R13")
+                self.edit(toks[mcl].end, toks[e].end, "", "R13")
+                self.rule("R13")
+        for k in want:
+            if k > n:
+                raise ExtractError("lost anchor: iter/map/collect #%d in %s" % (k, self.name))
+
     def r8_signature(self):
         toks = self.toks
         it = self.item
@@ -532,7 +565,10 @@ class FnRewriter:
         bo, bc = self.body_range()
         for i in range(bo + 1, bc):
             if toks[i].kind == "id" and toks[i].text == "anyhow" and toks[i + 1].text == "!" and toks[i + 2].text == "(":
-                self.edit(toks[i].start, toks[self.match[i + 2]].end, "anyhow::vx_error()", "R11")
+                st = i
+                if toks[i - 1].text == "::" and toks[i - 2].text == "anyhow":
+                    st = i - 2
+                self.edit(toks[st].start, toks[self.match[i + 2]].end, "anyhow::vx_error()", "R11")
                 self.rule("R11")
 
     def drop_attrs_in_body(self):
@@ -604,6 +640,7 @@ class FnRewriter:
         self.r12_opassign()
         self.r6_closures()
         self.r13_mapcollect()
+        self.r13b_itermapcollect()
         self.subst()
         self.replace_calls()
         self.r11_anyhow()
@@ -906,7 +943,7 @@ class Assembler:
                 self.do_trait(parts[1:], extra)
             elif cmd == "fn":
                 sections = []
-                opts = {"assert_modes": {}, "floatcasts": set(), "opassign": [], "closures": {}, "replace": [], "mapcollect": {}}
+                opts = {"assert_modes": {}, "floatcasts": set(), "opassign": [], "closures": {}, "replace": [], "mapcollect": {}, "itermapcollect": set()}
                 j = i + 1
                 cur = None
                 while True:
@@ -945,6 +982,9 @@ class Assembler:
                                 d["name"] = p2[3]
                             else:
                                 d["contract"] = p2[3]
+                            cur = None
+                        elif c2 == "itermapcollect":
+                            opts["itermapcollect"].add(int(p2[1]))
                             cur = None
                         elif c2 == "mapcollect":
                             opts["mapcollect"][int(p2[1])] = p2[2]
